@@ -537,19 +537,6 @@ func genC04(seed uint64, part string, prop string) *Scenario {
 		pf.waitEarlyP = 0
 	}
 	sc := genMixed(seed, prop+"/"+part, pf)
-	if sc.Pop {
-		// a user priority change on a finished bar contradicts "finished bars rise
-		// above all running bars"; outside the stated domain of C18/C04
-		for ci := range sc.Clients {
-			var keep []Op
-			for _, o := range sc.Clients[ci] {
-				if o.K != "prio" && o.K != "setprio" {
-					keep = append(keep, o)
-				}
-			}
-			sc.Clients[ci] = keep
-		}
-	}
 	if part == "pty" {
 		sc.PtyRows = r.Pick(2, 3, 5, 8, 24)
 		sc.PtyCols = r.Pick(60, 80, 200)
